@@ -14,7 +14,7 @@ MANIFEST = {
             "the C code on every run by a lock-step walk of the model's state space in which every transition is also "
             "executed by the real scheduler (ASan build) and all scheduler state compared, plus threaded runs of the real "
             "drivers under seeded schedule perturbation (per-column release counters, thread counts, watchdog).",
-    "note": "The scheduler pxgstrf_scheduler is RE-TRANSLATED from the current source on every run (coq/SchedGen.v: shared arrays as list cells, while loops with fuel, lock discipline checked) and proved equal to SchedModel.sched for every state that passes the executable index guard, hence for every reachable state (SchedTie.v; c04_source_scheduler_is_model, _reachable, c04_source_queue_bounds, c04_source_pipeline_handout); the thread loop, ParallelInit and pxgstrf_relax_snode stay tied by the lock-step exploration. Error returns: a pthread_create that fails part-way is injected (ld --wrap, exact live-thread count through a trampoline): the library must end through its fatal-error path or return with every started worker terminated. Trusted: Coq kernel, extraction (ExtrOcamlBasic), the lock-step harness; the model treats one scheduler call as "
+    "note": "The scheduler pxgstrf_scheduler is RE-TRANSLATED from the current source on every run (coq/SchedGen.v: shared arrays as list cells, while loops with fuel, lock discipline checked) and proved equal to SchedModel.sched for every state that passes the executable index guard, hence for every reachable state (SchedTie.v; c04_source_scheduler_is_model, _reachable, c04_source_queue_bounds, c04_source_pipeline_handout); the INITIAL state is tied the same way (pxgstrf_relax_snode, queue_init, EnqueueRelaxSnode, ParallelInit re-translated: SchedInitGen.v / SchedInitTie.v; c04_source_init_is_model, c04_source_init_then_scheduler_in_model: the translated init followed by any interleaving of translated scheduler calls stays inside the model); the thread loop of p?gstrf_thread.c stays tied by the lock-step exploration and the trace monitor. Error returns: a pthread_create that fails part-way is injected (ld --wrap, exact live-thread count through a trampoline): the library must end through its fatal-error path or return with every started worker terminated. Trusted: Coq kernel, extraction (ExtrOcamlBasic), the lock-step harness; the model treats one scheduler call as "
             "atomic w.r.t. the DONE store of other threads (each state cell is read once, monotone); sequentially "
             "consistent memory and weak fairness of the OS scheduler are assumed; termination of the real threads is "
             "observed (watchdog); the termination theorem is about the protocol model under weak fairness of the threads.",
